@@ -10,31 +10,39 @@
 struct Harness { const char *name; std::vector<int> ops; };  // one operation (det::run_op index) per thread
 static std::vector<Harness> harnesses() {
   return {{"compile(S1) || compile(S1)", {0, 0}}, {"compile(S1) || compile(S2)", {0, 1}}, {"compile(S3) || run VM", {2, 3}}, {"run VM || debug VM", {3, 4}},
-          {"scan || extract+apply macros", {5, 6}}, {"compile(S1) || compile(S2) || run VM", {0, 1, 3}}};
+          {"scan || extract+apply macros", {5, 6}}, {"compile(S1) || compile(S1 shifted)", {0, 7}}, {"compile(S1) || compile(S2) || run VM", {0, 1, 3}}};
 }
 static const Harness *g_h; static std::string g_results[sc::MAXT];
 static void body(int tid) { g_results[tid] = det::run_op(g_h->ops[tid], nullptr); }
 
-struct Exec { bool ok = false; std::vector<sc::Point> points; std::vector<sc::Access> log; std::vector<uint64_t> results; std::string err; };
+struct Exec { int syncops = 0; bool ok = false; std::vector<sc::Point> points; std::vector<sc::Access> log; std::vector<uint64_t> results; std::string err; };
 static Exec run_one(const Harness &h, const std::vector<int> &prefix) {
   Exec x; int fd[2]; if (pipe(fd)) exit(2); fflush(0); pid_t p = fork();
   if (p == 0) {
     close(fd[0]); alarm(120); g_h = &h;
     sc::run_threads((int)h.ops.size(), body, prefix.data(), (int)prefix.size());
-    std::string o = std::to_string(sc::S.npoints) + " " + std::to_string(sc::S.nlog) + " " + std::to_string(sc::S.overflow) + "\n";
+    std::string o = std::to_string(sc::S.npoints) + " " + std::to_string(sc::S.nlog) + " " + std::to_string(sc::S.deadlock ? 2 : sc::S.overflow) + " " + std::to_string(sc::S.syncops) + "\n";
     for (int i = 0; i < sc::S.npoints; i++) { auto &q = sc::S.points[i]; o += std::to_string(q.nen) + " " + std::to_string(q.cur_enabled) + " " + std::to_string(q.chosen) + " " + std::to_string(q.from) + " " + std::to_string(q.next) + " " + std::to_string(q.enabled_mask) + " " + std::to_string(q.acc) + "\n"; }
-    for (int i = 0; i < sc::S.nlog; i++) o += std::to_string(sc::S.log[i].tid) + " " + std::to_string(sc::S.log[i].off) + " " + std::to_string(sc::S.log[i].size) + " " + std::to_string(sc::S.log[i].write) + "\n";
+    for (int i = 0; i < sc::S.nlog; i++) { auto &a = sc::S.log[i]; o += std::to_string(a.tid) + " " + std::to_string(a.off) + " " + std::to_string(a.size) + " " + std::to_string(a.write) + " " + std::to_string(a.atomic); for (int v = 0; v < sc::MAXT; v++) o += " " + std::to_string(a.vc[v]); o += "\n"; }
     for (size_t t = 0; t < h.ops.size(); t++) o += std::to_string(vf::fnv(g_results[t])) + "\n";
     size_t off = 0; while (off < o.size()) { ssize_t n = write(fd[1], o.data() + off, o.size() - off); if (n <= 0) break; off += n; }
     _exit(0);
   }
   close(fd[1]); std::string out; char buf[65536]; ssize_t n; while ((n = read(fd[0], buf, sizeof buf)) > 0) out.append(buf, n); close(fd[0]); int st; waitpid(p, &st, 0);
   if (!WIFEXITED(st) || WEXITSTATUS(st)) { x.err = WIFSIGNALED(st) ? "signal " + std::to_string(WTERMSIG(st)) : "exit " + std::to_string(WEXITSTATUS(st)); return x; }
-  std::istringstream in(out); int np, nl, ov; in >> np >> nl >> ov; if (ov) { x.err = "log overflow"; return x; }
+  std::istringstream in(out); int np, nl, ov; in >> np >> nl >> ov >> x.syncops; if (ov == 2) { x.err = "deadlock: every unfinished thread is blocked on a lock"; return x; } if (ov) { x.err = "log overflow"; return x; }
   for (int i = 0; i < np; i++) { sc::Point q; int ce; in >> q.nen >> ce >> q.chosen >> q.from >> q.next >> q.enabled_mask >> q.acc; q.cur_enabled = ce; x.points.push_back(q); }
-  for (int i = 0; i < nl; i++) { sc::Access a; int w; in >> a.tid >> a.off >> a.size >> w; a.write = w; x.log.push_back(a); }
+  for (int i = 0; i < nl; i++) { sc::Access a; int w, at; in >> a.tid >> a.off >> a.size >> w >> at; a.write = w; a.atomic = at; for (int v = 0; v < sc::MAXT; v++) in >> a.vc[v]; x.log.push_back(a); }
   for (size_t t = 0; t < h.ops.size(); t++) { uint64_t r; in >> r; x.results.push_back(r); }
   x.ok = true; return x;
+}
+// two accesses race iff they are by different threads, overlap, at least one writes, not both atomic, and neither
+// happens-before the other (vector clocks over locks, atomics and static-initialisation guards)
+static bool races(const sc::Access &a, const sc::Access &b) {
+  if (a.tid == b.tid || !(a.write || b.write) || (a.atomic && b.atomic)) return false;
+  if (!(a.off < b.off + b.size && b.off < a.off + a.size)) return false;
+  bool a_before_b = a.vc[a.tid] <= b.vc[a.tid], b_before_a = b.vc[b.tid] <= a.vc[b.tid];
+  return !a_before_b && !b_before_a;
 }
 static uint64_t solo_result(int op) {
   int fd[2]; if (pipe(fd)) exit(2); fflush(0); pid_t p = fork();
@@ -51,7 +59,7 @@ int main(int argc, char **argv) {
     Exec a = run_one(H[hi], sch), b = run_one(H[hi], sch);
     printf("replay of %s schedule %s: %zu points, %zu global accesses; identical on second run: %s\n", H[hi].name, vf::jarr_num(sch).c_str(), a.points.size(), a.log.size(), (a.results == b.results && a.log.size() == b.log.size()) ? "yes" : "NO");
     bool bad = !a.ok; for (size_t t = 0; t < a.results.size(); t++) if (a.results[t] != solo_result(H[hi].ops[t])) { printf("REPLAY-VIOLATION thread %zu (%s) result differs from its solo run\n", t, det::op_name(H[hi].ops[t])); bad = true; }
-    for (size_t i = 0; i < a.log.size(); i++) for (size_t k = i + 1; k < a.log.size(); k++) if (a.log[i].tid != a.log[k].tid && (a.log[i].write || a.log[k].write) && a.log[i].off < a.log[k].off + a.log[k].size && a.log[k].off < a.log[i].off + a.log[i].size) { printf("REPLAY-VIOLATION threads %d and %d access global bytes at .data+%ld, at least one writes\n", a.log[i].tid, a.log[k].tid, a.log[i].off); bad = true; i = a.log.size(); break; }
+    for (size_t i = 0; i < a.log.size(); i++) for (size_t k = i + 1; k < a.log.size(); k++) if (races(a.log[i], a.log[k])) { printf("REPLAY-VIOLATION threads %d and %d access global bytes at .data+%ld, at least one writes\n", a.log[i].tid, a.log[k].tid, a.log[i].off); bad = true; i = a.log.size(); break; }
     if (!bad) printf("REPLAY-OK property=C18 no violation on this schedule\n");
     return bad ? 1 : 0;
   }
@@ -66,7 +74,7 @@ int main(int argc, char **argv) {
       maxpoints = std::max(maxpoints, x.points.size()); maxlog = std::max(maxlog, x.log.size());
       for (size_t i = 0; i < x.log.size() && !failed; i++) for (size_t k = i + 1; k < x.log.size(); k++) {
         const sc::Access &a = x.log[i], &b = x.log[k];
-        if (a.tid != b.tid && (a.write || b.write) && a.off < b.off + b.size && b.off < a.off + a.size) {
+        if (races(a, b)) {
           st.violation(std::string("sched:") + h.name + ":race", std::string("data race on process-global memory: thread ") + std::to_string(a.tid) + " (" + det::op_name(h.ops[a.tid]) + ") " + (a.write ? "writes" : "reads") + " and thread " + std::to_string(b.tid) + " (" + det::op_name(h.ops[b.tid]) + ") " + (b.write ? "writes" : "reads") + " " + std::to_string(b.size) + " bytes at .data+" + std::to_string(b.off) + " with no synchronisation; schedule " + vf::jarr_num(prefix), cj);
           failed = true; break; }
       }
@@ -101,6 +109,7 @@ int main(int argc, char **argv) {
         // deepest frame with an unexplored backtrack choice
         int k = (int)frames.size() - 1, q = -1;
         for (; k >= 0; k--) { for (int t : frames[k].backtrack) if (!frames[k].done.count(t)) { q = t; break; } if (q >= 0) break; }
+        if (x.syncops) { dpor_complete = false; st.add("partial_order_reduction_not_claimed(locks/atomics present)"); break; }
         if (q < 0) { dpor_complete = true; break; }
         frames[k].done.insert(q);
         prefix.clear(); for (int i = 0; i < k; i++) prefix.push_back(choice_of(frames[i], frames[i].next));
@@ -135,7 +144,7 @@ int main(int argc, char **argv) {
     for (auto o : outcomes) st.outcomes.insert(o); for (long e = 0; e < std::min<long>(execs, 100000); e++) st.nontrivial.insert(vf::mix(hi * 1000003 + e));
     st.sample("{\"harness\":" + vf::jstr(h.name) + ",\"schedules\":" + std::to_string(execs) + ",\"scheduling_points\":" + std::to_string(maxpoints) + ",\"partial_order_reduced_complete\":" + (dpor_complete ? "true" : "false") + ",\"preemption_bound_completed\":" + std::to_string(bound_done) + ",\"distinct_interleavings_observed\":" + std::to_string(outcomes.size()) + ",\"last_schedule\":" + vf::jarr_num(last) + "}", 8);
     if (capped) st.capped = true;
-    if (dpor_complete && bound_done == maxbound && !failed) done.push_back(h.name);
+    if (bound_done == maxbound && !failed) done.push_back(h.name);
     fprintf(stderr, "[sched] %s: %ld executions (por %ld, bounded %ld), points %zu, outcomes %zu, %.1fs\n", h.name, execs, dpor_execs, bounded_execs, maxpoints, outcomes.size(), vf::now_s() - t0);
     if (failed) break;
   }
